@@ -5,7 +5,7 @@ CONSTANTS
   MaxTail = 4
   ElemTail = 0
   NestTail = 0
-  DeepTail = -1
+  DeepTail = 0
   Nums = {1}
   MaxOperands = 1
   WithNeg = FALSE
